@@ -114,7 +114,16 @@ def main():
         for m in sorted(glob.glob(os.path.join(HERE, "seeded", pid + "*", "meta.json"))):
             earlier.append(json.load(open(m))["breaks"])
         if benign:
-            txt = PROMPT_BENIGN.format(wt=wt, out=out, angle=angle.strip())
+            # earlier refactorings kept for this property (first line of their notes): ask for a different one
+            prev = []
+            for nf in sorted(glob.glob(os.path.join(HERE, "selftest", "twins", "benign", pid + "*", "notes.md"))):
+                first = open(nf).readline().strip().lstrip("# ").strip()
+                if first:
+                    prev.append(first)
+            extra = angle.strip()
+            if prev:
+                extra += " An earlier contributor already delivered this refactoring for the same property - choose a DIFFERENT function or a different kind of change: " + "; ".join('"%s"' % x for x in prev) + "."
+            txt = PROMPT_BENIGN.format(wt=wt, out=out, angle=extra)
         else:
             txt = PROMPT.format(wt=wt, out=out, angle=angle, earlier="\n".join('  %d. "%s"' % (i + 1, e) for i, e in enumerate(earlier)) or "  (none yet)")
         with open(os.path.join(base, "prompts", pid + ".txt"), "w") as f:
